@@ -229,10 +229,13 @@ static std::string observe_cpc(const cpc_sketch& s) {
 static void case_cpc(Rng& r) {
   describe("cpc (generating state)");
   const bool T = G().thorough();
-  const uint8_t lg_k = static_cast<uint8_t>(r.chance(0.6) ? r.range(4, 7) : r.range(8, T ? 12 : 10));
+  // "clustered": coupons confined to a narrow band of rows plus a few rows far away, so that the row deltas of the
+  // compressed pair list contain a long unary (Golomb high) part; uniform hashing never produces that
+  const bool clustered = r.chance(0.15);
+  const uint8_t lg_k = static_cast<uint8_t>(clustered ? r.range(12, (T || r.chance(0.2)) ? 14 : 13) : (r.chance(0.6) ? r.range(4, 7) : r.range(8, T ? 12 : 10)));
   const uint64_t k = 1ULL << lg_k;
   const uint64_t seed = r.chance(0.6) ? DEFAULT_SEED : r.next();
-  const unsigned cls = static_cast<unsigned>(r.below(9));
+  const unsigned cls = clustered ? 9 : static_cast<unsigned>(r.below(9));
   // target coupon counts by flavor: SPARSE C<3K/32, HYBRID <K/2, PINNED <27K/8, SLIDING beyond
   uint64_t n = 0; std::string desc;
   switch (cls) {
@@ -243,11 +246,27 @@ static void case_cpc(Rng& r) {
     case 4: n = k / 2 + r.below(3 * k); desc = "pinned"; break;
     case 5: n = 4 * k + r.below(12 * k); desc = "sliding"; break;
     case 6: n = 16 * k + r.below(T ? 200 * k : 60 * k); desc = "sliding-late"; break;
+    case 9: desc = "clustered-rows"; break;
     default: desc = "union-result"; break;
   }
   std::unique_ptr<cpc_sketch> sk;
   const uint64_t base = r.next() >> 8;
-  if (cls <= 6) {
+  if (cls == 9) {
+    sk.reset(new cpc_sketch(lg_k, seed));
+    const uint64_t width = k >> r.range(3, 5);                       // band of k/8 .. k/32 rows
+    const bool band_low = r.coin();
+    const uint64_t lo = band_low ? 0 : k - width;                    // band at one end, outliers in the opposite quarter
+    const unsigned target = static_cast<unsigned>(r.below(3));       // aim just below the SPARSE limit, into HYBRID, or at PINNED
+    uint64_t want = target == 0 ? 3 * k / 32 - 2 - r.below(k / 64) : target == 1 ? 3 * k / 32 + r.below(k / 4) : (lg_k == 12 ? k + r.below(k) : k / 4 + r.below(k / 8));
+    uint64_t got = 0; unsigned far = 0; const unsigned far_want = 1 + static_cast<unsigned>(r.below(3));
+    for (uint64_t v = base; got < want || far < far_want; ++v) {
+      const uint64_t row = ref_hash_u64(v, seed).h1 & (k - 1);
+      if (row >= lo && row < lo + width) { if (got < want) { sk->update(v); ++got; } }
+      else if ((band_low ? row >= 3 * k / 4 : row < k / 4) && far < far_want) { sk->update(v); ++far; }
+    }
+    n = got + far;
+    desc += " width=" + std::to_string(width) + " low=" + std::to_string(band_low) + " far=" + std::to_string(far);
+  } else if (cls <= 6) {
     sk.reset(new cpc_sketch(lg_k, seed));
     for (uint64_t i = 0; i < n; ++i) sk->update(base + i);
   } else {
@@ -263,6 +282,7 @@ static void case_cpc(Rng& r) {
   static const char* fl[] = {"EMPTY", "SPARSE", "HYBRID", "PINNED", "SLIDING"};
   const int flavor = static_cast<int>(sk->determine_flavor());
   count(std::string("cpc_flavor_") + fl[flavor] + (sk->was_merged ? "_merged" : ""));
+  if (cls == 9) count(std::string("cpc_clustered_rows_") + fl[flavor]);
   sig(mix64(mix64(sk->get_lg_k(), sk->get_num_coupons()), mix64(flavor, sk->was_merged)));
 
   Ops<cpc_sketch> o;
